@@ -52,7 +52,7 @@ CONFIG = dict(
          "non-trivial = at least one FIB request or a service run; distinct = distinct case line",
     expect_tokens=["(fib (0 0 ", "(fib (0 1 ", "(0 2 ", "(0 3 ", "(10 0 ", "(11 0 ", "(12 1 ", " ())", "(r 1) (u ", "(u 1) (u 1)",
                    "(p 100 ", "(p 101 ", " t f f ", " f t f ", " f f t ", " f t t ", " 200 0 0 t ", " 50 ", " 100 1 ",
-                   " 100 2 ", " 0 1 t ", " 0 2 t ", " f 0 ", " f 1 ", "(1 2)) ", "(2 1)) ", "(1 2 3))", "(101", "(feed (", "(feed)",
+                   " 100 2 ", " 0 1 t ", " 0 2 t ", " f 0 ", " f 1 ", "(1 2)) ", "(2 1)) ", "(1 2 3))", "(101", "(feed (", "(feed)", "(order ok)",
                    "svc-trace", "(emit t f", "bad-case"],
     trusted_base=["model Rbgp/Fib/Model.lean of daemon/src/table_manager.rs (insert_route, remove_route, unregister_peer, "
                   "drop_stale_families, soft_reset_in, update_nexthop_validity, nht_register, distribute_update) over a reduced "
@@ -79,8 +79,10 @@ CONFIG = dict(
                            "property's histories; probed by hand, see known-findings remarks)"],
     assumptions=["each VPN prefix maps to its own VRF-local prefix (two RDs carrying the same IP prefix into one VRF would need "
                  "a VRF-level best-path selection that the code does not have; such histories are not generated)",
-                 "requests of one history step that concern different FIB cells / different addresses are unordered: both "
-                 "sides print them in a canonical order (check_canon_ok proves the verdict for that form too)"],
+                 "requests of one history step that concern different FIB cells / different addresses are unordered (hash-map "
+                 "iteration): both sides print them in a canonical order (check_canon_ok / check_all_ok prove the verdict for "
+                 "that form); the order sent is judged by the run-level `order` observation (no unregister without outstanding "
+                 "registration) and, in the feed cases, by the real service loop fed in the order sent"],
 )
 
 V4 = [1, 2]
